@@ -79,7 +79,7 @@ def plan(tier, seed):
     q = tier == "quick"
     shards = []
     for i in range(6):
-        shards.append({"name": "merge-%d" % i, "kind": "merge", "n": 22 if q else 420})
+        shards.append({"name": "merge-%d" % i, "kind": "merge", "n": 18 if q else 420})
     for i in range(3):
         shards.append({"name": "conflict-%d" % i, "kind": "conflict", "n": 60 if q else 1100})
     for i in range(4):
